@@ -332,7 +332,7 @@ pub fn mont_sparse(m: &N) -> BoxedStrategy<Num> {
 /// Target values for intermediate results: Montgomery-sparse, small / near-modulus / limb-pattern
 /// values, and a few uniform ones.
 pub fn structured_target() -> BoxedStrategy<Num> {
-    prop_oneof![4 => mont_sparse(&Q.m), 3 => fq_special(), 1 => (0u32..4, any::<bool>()).prop_map(|(k, neg)| Num(if neg { Q.neg(&N::from(k)) } else { N::from(k) }))].boxed()
+    prop_oneof![4 => mont_sparse(&Q.m), 3 => fq_special(), 3 => two_adic_structured(), 1 => (0u32..4, any::<bool>()).prop_map(|(k, neg)| Num(if neg { Q.neg(&N::from(k)) } else { N::from(k) }))].boxed()
 }
 
 /// Elligator inputs r0 constructed so that one intermediate value of the map (r, the two factors of
@@ -421,4 +421,41 @@ pub fn mont_low_limb(v: &N, m: &N) -> u32 {
     let nlimbs64 = ((m.bits() + 63) / 64) as usize;
     let t = (v << (64 * nlimbs64)) % m;
     t.to_u32_digits().first().copied().unwrap_or(0)
+}
+
+/// Fq elements with a chosen 2-primary part: g^e * w^(2^47), g a generator of the 2-Sylow subgroup
+/// (order 2^47), w arbitrary (so the odd-order part is generic), e from the structured exponents the
+/// table-based square root is sensitive to: 0 (odd order), all ones, single bits, one 8-bit window at
+/// 0 / 1 / maximum with the rest zero / all-ones / random, exact order 2^k; e or -e.
+pub fn two_adic_structured() -> BoxedStrategy<Num> {
+    use crate::refmodel::CURVE;
+    const S: u32 = 47;
+    let mask = (1u64 << S) - 1;
+    let e = prop_oneof![
+        3 => Just(0u64),
+        2 => Just(mask),
+        2 => (0u32..S).prop_map(|k| 1u64 << k),
+        6 => (0u32..6, prop_oneof![Just(0u64), Just(1), Just(0x7f), Just(0x80), Just(0xff), 0u64..256], 0u8..3, any::<u64>()).prop_map(move |(j, d, fill, rnd)| {
+            let shift = 8 * j;
+            let bm = (0xffu64 << shift) & mask;
+            let base = match fill { 0 => 0, 1 => mask, _ => rnd & mask };
+            (base & !bm) | ((d << shift) & mask)
+        }),
+        2 => (1u32..=S, any::<u64>()).prop_map(move |(k, o)| (((o | 1) & ((1u64 << k) - 1)) << (S - k)) & mask),
+        2 => any::<u64>().prop_map(move |e| e & mask),
+    ];
+    (e, any::<bool>(), fe(&Q.m), 0u8..4).prop_map(move |(e, negate, w, zpow)| {
+        let g = Q.pow(&CURVE.zeta, &Q.trace);
+        let e = if negate { e.wrapping_neg() & mask } else { e };
+        let odd = Q.pow(&w.0, &(N::one() << S));
+        let mut v = Q.mul(&Q.pow(&g, &N::from(e)), &odd);
+        // times zeta^{0, 1, -1, 2}: the map multiplies / divides by zeta around the square root
+        match zpow {
+            1 => v = Q.mul(&v, &CURVE.zeta),
+            2 => v = Q.mul(&v, &Q.inv(&CURVE.zeta).unwrap()),
+            _ => {}
+        }
+        Num(v)
+    })
+    .boxed()
 }
